@@ -202,13 +202,13 @@ func (i *Inserter) ingestTableFromBlocks(columns []string, pk []uint32) ([]byte,
 	if err != nil {
 		return nil, err
 	}
-	sum, err := objects.SaveTable(i.db, buf.Bytes())
-	if err != nil {
-		return nil, err
-	}
-	i.logger.Info("saved table", "sum", sum)
+	tblBytes := make([]byte, buf.Len())
+	copy(tblBytes, buf.Bytes())
+	sumArr := meow.Checksum(0, tblBytes)
+	sum := sumArr[:]
 
-	// write and save table index
+	// the table object is what marks a table as present: write and save the table index and the
+	// table profile first, so that an interruption never leaves a present table without them
 	buf.Reset()
 	enc := objects.NewStrListEncoder(true)
 	_, err = objects.WriteBlockTo(enc, buf, tblIdx)
@@ -233,6 +233,13 @@ func (i *Inserter) ingestTableFromBlocks(columns []string, pk []uint32) ([]byte,
 			return nil, err
 		}
 	}
+
+	// write and save table
+	sum, err = objects.SaveTable(i.db, tblBytes)
+	if err != nil {
+		return nil, err
+	}
+	i.logger.Info("saved table", "sum", sum)
 
 	return sum, nil
 }
